@@ -20,6 +20,7 @@ type Opts struct {
 	ScopedReuse bool // parameter/local names reused across the methods of a unit with different types, and shadowing fields (C02)
 	ExtraImps   bool // imports that are unused / wildcard / static (C06)
 	Anon        bool // anonymous classes as arguments (new Runnable() { public void run() { ... } })
+	DupNames    bool // some classes share their simple name with a class of another package and are referenced through a wildcard import (metamorphic checks only)
 	MaxMethods  int  // default 5
 	NoCtors     bool
 }
@@ -130,11 +131,12 @@ type classSig struct {
 func (c classSig) full() string { return c.pkg + "." + c.name }
 
 type gen struct {
-	t     *rapid.T
-	o     Opts
-	names *Names
-	sigs  []classSig
-	reuse []string // pool of reusable variable names (NameReuse)
+	t       *rapid.T
+	o       Opts
+	names   *Names
+	sigs    []classSig
+	reuse   []string    // pool of reusable variable names (NameReuse)
+	mustRef map[int]int // unit -> unit it must refer to through a wildcard import (DupNames)
 }
 
 var pkgPool = []string{"com.acme", "com.acme.core", "org.demo", "app", "com.acme.web.api"}
@@ -159,6 +161,9 @@ func GenProject(t *rapid.T, o Opts) Project {
 		g.reuse = []string{"repo", "item", "value", "it"}
 	}
 	nPk := rapid.IntRange(1, 3).Draw(t, "nPkgs")
+	if o.DupNames {
+		nPk = 3
+	}
 	pkgs := append([]string(nil), pkgPool[:0]...)
 	start := rapid.IntRange(0, len(pkgPool)-1).Draw(t, "pkgStart")
 	for i := 0; i < nPk; i++ {
@@ -190,6 +195,20 @@ func GenProject(t *rapid.T, o Opts) Project {
 		}
 		if s.kind == "Class" && rapid.IntRange(0, 7).Draw(t, "isAbstract") == 7 {
 			s.abstract = true
+		}
+		if o.DupNames && i > 0 && rapid.IntRange(0, 2).Draw(t, "dupName") == 0 {
+			j := rapid.IntRange(0, i-1).Draw(t, "dupOf")
+			if g.sigs[j].pkg != s.pkg {
+				clash := false
+				for _, x := range g.sigs {
+					if x.pkg == s.pkg && x.name == g.sigs[j].name {
+						clash = true
+					}
+				}
+				if !clash {
+					s.name = g.sigs[j].name
+				}
+			}
 		}
 		if o.Layout {
 			switch rapid.IntRange(0, 9).Draw(t, "role") {
@@ -265,6 +284,20 @@ func GenProject(t *rapid.T, o Opts) Project {
 			s.path = dirs + "/" + base + ".java"
 		}
 		g.sigs = append(g.sigs, s)
+	}
+	if o.DupNames && len(g.sigs) >= 3 && rapid.Bool().Draw(t, "dupTriple") {
+		// two classes of the same simple name in two packages and a class of a third package that
+		// refers to that name through a wildcard import
+		a, b, c := &g.sigs[0], &g.sigs[1], &g.sigs[2]
+		if a.kind == "Class" && b.kind == "Class" && a.role == "main" && b.role == "main" && c.role == "main" && c.kind == "Class" {
+			order := rapid.Permutation([]int{0, 1, 2}).Draw(t, "triplePkgs")
+			a.pkg, b.pkg, c.pkg = pkgs[order[0]], pkgs[order[1]], pkgs[order[2]]
+			b.name = a.name
+			for _, x := range []*classSig{a, b, c} {
+				x.path = strings.ReplaceAll(x.pkg, ".", "/") + "/" + x.name + ".java"
+			}
+			g.mustRef = map[int]int{2: rapid.IntRange(0, 1).Draw(t, "tripleRef")}
+		}
 	}
 	for i := range g.sigs {
 		text, truth := g.unit(i)
@@ -377,6 +410,14 @@ func (g *gen) unit(i int) (string, UnitTruth) {
 		chosen = append(chosen, perm[:k]...)
 		sort.Ints(chosen)
 	}
+	forcedWildcard := -1
+	if ref, ok := g.mustRef[i]; ok {
+		forcedWildcard = ref
+		if !contains(chosen, ref) {
+			chosen = append(chosen, ref)
+			sort.Ints(chosen)
+		}
+	}
 	var exts []int
 	for xi := range externals {
 		if rapid.IntRange(0, 2).Draw(t, "useExt") == 0 {
@@ -418,6 +459,18 @@ func (g *gen) unit(i int) (string, UnitTruth) {
 	var imps []impLine
 	for _, c := range chosen {
 		if g.sigs[c].pkg != s.pkg {
+			if g.o.DupNames && (c == forcedWildcard || rapid.Bool().Draw(t, "wildcardImport")) {
+				dup := false
+				for _, im := range imps {
+					if im.text == g.sigs[c].pkg && im.wildcard {
+						dup = true
+					}
+				}
+				if !dup {
+					imps = append(imps, impLine{text: g.sigs[c].pkg, wildcard: true, verdict: "keep", why: "wildcard"})
+				}
+				continue
+			}
 			imps = append(imps, impLine{text: g.sigs[c].full()})
 			u.imports[g.sigs[c].full()] = true
 		}
@@ -432,7 +485,13 @@ func (g *gen) unit(i int) (string, UnitTruth) {
 		nu := rapid.IntRange(0, 4).Draw(t, "nUsedExtraImports")
 		for k := 0; k < nu; k++ {
 			nm := g.names.Class(t)
-			switch rapid.IntRange(0, 8).Draw(t, "usedImportKind") {
+			switch rapid.IntRange(0, 10).Draw(t, "usedImportKind") {
+			case 9: // qualifier of a method reference
+				usage = append(usage, "Runnable mr"+fmt.Sprint(k)+" = "+nm+"::run;")
+				imps = append(imps, impLine{text: "org.lib." + nm, verdict: "keep", why: "used as qualifier of a method reference"})
+			case 10: // qualifier of a method reference passed as an argument
+				usage = append(usage, "java.util.Arrays.asList(1, 2).forEach("+nm+"::accept);")
+				imps = append(imps, impLine{text: "org.lib." + nm, verdict: "keep", why: "used as qualifier of a method reference argument"})
 			case 7: // receiver of a static field only
 				usage = append(usage, "Object c"+fmt.Sprint(k)+" = "+nm+".DEFAULT;")
 				imps = append(imps, impLine{text: "org.lib." + nm, verdict: "keep", why: "used as receiver of a static field"})
